@@ -14,7 +14,7 @@ JUNK = ["FOOBAR this is not a PDB record", "JUNK", "XXXXXX 1 2 3", "REMARK 999 f
 MUTATIONS = ["blank_lines", "ws_lines", "junk", "crlf", "truncate", "ter_variants", "end_missing", "end_repeated",
              "end_midfile", "models", "atoms_before_model", "altloc_interleaved", "altloc_blocked", "icodes",
              "negative_numbers", "blank_chain", "repeated_chain", "water_as_atom", "no_final_newline", "leading_records",
-             "endmdl_only", "tabs_in_junk"]
+             "endmdl_only", "tabs_in_junk", "big_serials"]
 
 
 def apply(items, muts, rng):
@@ -118,7 +118,9 @@ def apply(items, muts, rng):
                 if k not in choice:      # one record type and one residue name per water molecule
                     choice[k] = (rng.choice(["ATOM", "HETATM"]), rng.choice(["HOH", "WAT"]))
                 it["rec"], it["resn"] = choice[k]
-    pdbfmt.renumber(items)
+    natoms = sum(1 for it in items if isinstance(it, dict))
+    pdbfmt.renumber(items, rng.choice([9990, max(1, 10000 - natoms // 2), 99999 - natoms // 2])
+                    if "big_serials" in muts else 1)
 
     lines = [pdbfmt.fmt_atom(it) if isinstance(it, dict) else it for it in items]
     nmodels = 1
